@@ -48,8 +48,9 @@ fn boundary_chain() -> Vec<BlockSpec> {
     blocks.push(txs);
     let mut it = blocks.into_iter();
     let mut chain = make_chain(6, &mut |h| if h == 0 { vec![] } else { it.next().unwrap() });
-    chain[5].version = 0xffff_fffe; chain[5].time = u32::MAX; chain[5].bits = 0x8000_0001; chain[5].nonce = 0x8000_0000;
-    chain[2].tx_count_width = 5; chain[2].version = 0x2000_0000; chain[2].bits = u32::MAX; chain[2].time = 0;
+    chain[5].version = 0x0001_0000;   // below every AuxPoW activation version: the chain is valid for all 8 coins
+    chain[2].version = 2; chain[5].time = u32::MAX; chain[5].bits = 0x8000_0001; chain[5].nonce = 0x8000_0000;
+    chain[2].tx_count_width = 5; chain[2].version = 0x0000_ffff; chain[2].bits = u32::MAX; chain[2].time = 0;
     // a byte-identical coinbase in two blocks (legal before BIP34, e.g. mainnet 91722 / 91880): still one row each
     chain[4].txs[0] = chain[1].txs[0].clone();
     relink(&mut chain);
@@ -63,8 +64,8 @@ fn c01_csvdump_rows_match_disk() {
     let chain = boundary_chain();
     let d = simple_dir(&chain); d.write();
     let mut cases = 0;
-    let mut runs = vec![("bitcoin", false), ("litecoin", false), ("bitcoin", true)];
-    if thorough() { runs.extend([("testnet3", false), ("myriadcoin", true), ("unobtanium", false), ("noteblockchain", false)]); }
+    let mut runs = vec![("bitcoin", false), ("litecoin", false), ("bitcoin", true), ("namecoin", false), ("myriadcoin", false)];
+    if thorough() { runs.extend([("testnet3", false), ("dogecoin", true), ("unobtanium", false), ("noteblockchain", false)]); }
     for (coin, verify) in runs {
         let s = if verify { 1 } else { 0 };
         let blocks = match fetch_blocks(d.path(), coin, s, 5, verify) { Ok(b) => b, Err(m) => { fail(suite, "C01:well_formed_chain_parses", &format!("{} verify={}", coin, verify), &m, "Ok"); continue; } };
